@@ -262,8 +262,7 @@ def rule_r2(ctx):
                 ctx.r.violation(rid, key_of(f, None, "header-refusal-branch"), "over-limit branch: 431 stored=%s completed=%s skips-parse=%s" % (bool(good), bool(comp), no_parse_after), f.loc(ob.ast))
 
 
-def rule_r3(ctx):
-    rid = "C06.R3"
+def rule_r3(ctx, rid="C06.R3"):
     ctx.r.rule(rid, "body limits: declared length and chunked running total are compared with max_request_body_size, refusing at equality with 413 + completed")
     p = ctx.p
     f = p.func(ROOT)
